@@ -111,7 +111,7 @@ def named_closed(H: Dict[str, Any]) -> bool:
 # ---------------------------------------------------------------------------
 
 def _compact_case(beh: Dict[str, Any], want_stages: bool, want_events: bool) -> Dict[str, Any]:
-    c: Dict[str, Any] = {k: beh[k] for k in ("id", "root", "orig", "origk", "origpay")}
+    c: Dict[str, Any] = {k: beh[k] for k in ("id", "root", "orig", "origk", "origpay", "entry")}
     c["exc"] = beh["exc"]
     c["reached"] = beh["reached"]
     if want_stages:
@@ -139,25 +139,54 @@ def _worker(args: Tuple[int, List[Dict[str, Any]], str, Dict[str, Any]]) -> Dict
         hook = getattr(importlib.import_module(mod), fn)
     cases = []
     summary: List[Dict[str, Any]] = []
+    import signal
+
+    class _Timeout(BaseException):
+        pass
+
+    def _alarm(*a: Any) -> None:
+        raise _Timeout()
+
+    signal.signal(signal.SIGALRM, _alarm)
+    cap = int(opts.get("cap", 60))
     for inp in inputs:
         pids = PayloadIds()
         t0 = time.time()
+        signal.alarm(cap)
+        try:
+            _one(inp, pids, t0, opts, hook, cases, summary)
+        except _Timeout:
+            summary.append({"id": inp, "build": "timeout", "exc": "Timeout", "wall": cap})
+        finally:
+            signal.alarm(0)
+    path = os.path.join(outdir, "cases-%02d.json" % shard)
+    with open(path, "w") as f:
+        json.dump(cases, f, separators=(",", ":"))
+    return {"shard": shard, "path": path, "ncases": len(cases), "summary": summary}
+
+
+def _one(inp: Dict[str, Any], pids: PayloadIds, t0: float, opts: Dict[str, Any], hook: Any, cases: List[Any], summary: List[Any]) -> None:
+    from .record import record_restructure, exc_sig
+    from .project import project
+
+    if True:
         try:
             scfg = build(inp, pids)
         except NotImplementedError as e:
             summary.append({"id": inp, "build": "refused", "exc": exc_sig(e)})
-            continue
+            return
         except Exception as e:
             summary.append({"id": inp, "build": "error", "exc": exc_sig(e)})
-            continue
+            return
         st0 = project(scfg, pids)
         if not named_closed(st0["H"]):
             summary.append({"id": inp, "build": "notclosed"})
-            continue
+            return
         beh = record_restructure(
             scfg, inp, pids,
             primitives=bool(opts.get("events", False)),
             stage_hook=(lambda nm, s: hook(nm, s, inp)) if hook else None,
+            stage_states=bool(opts.get("stages", True)) or True,
         )
         dt = time.time() - t0
         case = _compact_case(beh, opts.get("stages", True), opts.get("events", False))
@@ -169,10 +198,6 @@ def _worker(args: Tuple[int, List[Dict[str, Any]], str, Dict[str, Any]]) -> Dict
         summary.append({"id": inp, "build": "ok", "exc": beh["exc"], "reached": beh["reached"], "n": len(beh["orig"]),
                         "nblocks": len(beh["stages"].get(beh["reached"], {"H": {}})["H"]), "nbranching": nsyn, "wall": round(dt, 3),
                         "case": len(cases)})
-    path = os.path.join(outdir, "cases-%02d.json" % shard)
-    with open(path, "w") as f:
-        json.dump(cases, f, separators=(",", ":"))
-    return {"shard": shard, "path": path, "ncases": len(cases), "summary": summary}
 
 
 def record_domain(
@@ -183,6 +208,7 @@ def record_domain(
     stages: bool = True,
     events: bool = False,
     hook: Optional[str] = None,
+    cap: int = 60,
 ) -> List[Dict[str, Any]]:
     """Run the real code over `inputs` in `jobs` processes; write `shards`
     JSON files under outdir; return per-shard results (path, summaries)."""
@@ -193,7 +219,7 @@ def record_domain(
     order = sorted(range(len(inputs)), key=lambda i: -len(inputs[i].get("g", [])))
     for j, i in enumerate(order):
         parts[j % shards].append(inputs[i])
-    opts = {"stages": stages, "events": events, "hook": hook}
+    opts = {"stages": stages, "events": events, "hook": hook, "cap": cap}
     tasks = [(k, parts[k], outdir, opts) for k in range(shards)]
     ctx = mp.get_context("fork")
     with ctx.Pool(min(jobs, shards)) as pool:
